@@ -29,7 +29,8 @@ import (
 //     S  AskGrain(identity, msg)              (activates the grain where the engine decides)
 //     A  GrainIdentity(name, factory)         (explicit activation)
 //     D  TellGrain(identity, PoisonPill)      (deactivation)
-// Gates (= the events the explorer orders, all orders are enumerated): the start of every operation,
+// Gates (= the events the explorer orders, all orders are enumerated): the start of every operation
+// but the first of a script (the first operations are all in flight from the beginning),
 // every registry call (GrainExists, GetGrain, the atomic put-if-absent "NX", PutGrain, RemoveGrain),
 // every Grain.OnActivate, and the delivery of every remote request at the target node. Faults, cost 1
 // each: OnActivate fails (terminal error: the retrier stops at once, no virtual time passes),
@@ -42,8 +43,11 @@ import (
 //     instance, the registry record of the identity names exactly that node. (A record left behind
 //     with no live instance anywhere is not covered by the statement - "names the node that holds
 //     it" - and is only part of the observation.)
-// The signature of a two-node violation names how the node that activated LAST got there (the
-// ownership evidence its operation had obtained from the registry when OnActivate ran).
+// The signature of a violation = what is violated + the FIRST registry/holder inconsistency of the
+// execution (the root cause): an OnActivate that succeeded while the record did not name the
+// activating node (with the ownership evidence its operation had: claimed, record-names-self,
+// nx-lost-owner-vanished, ...), a RemoveGrain that deleted the record of a node holding a live instance,
+// a PutGrain that replaced the record of another node.
 // ---------------------------------------------------------------------------------------------
 
 type c30State struct {
@@ -58,6 +62,18 @@ type c30State struct {
 	// lastBasis[node] = evidence of the last successful activation on node
 	lastBasis []string
 	order     []int // nodes in the order their currently live instances were activated
+	// anomalies: registry/holder inconsistencies in the order they happened (see note/OnActivate);
+	// the first one names the root cause in the signature of a property violation
+	anomalies []string
+}
+
+func (st *c30State) anomaly(s string) { // st.mu held
+	for _, a := range st.anomalies {
+		if a == s {
+			return
+		}
+	}
+	st.anomalies = append(st.anomalies, s)
 }
 
 var c30Cur atomic.Pointer[c30State]
@@ -81,11 +97,17 @@ func (g *c30Grain) OnActivate(ctx context.Context, props *GrainProps) error {
 	op := c3xOp(ctx)
 	st.w.mu.Lock()
 	b := st.basis[op+"@"+st.w.names[node]]
+	rec := st.w.ownerName(st.w.grains[props.Identity().String()])
 	st.w.mu.Unlock()
 	if b == "" {
 		b = "no-registry-evidence"
 	}
 	st.mu.Lock()
+	if rec != st.w.names[node] {
+		// every regular path activates only while the record names the activating node (own claim,
+		// claim made on its behalf, or existing record naming it)
+		st.anomaly("activation-while-record-does-not-name-the-node-evidence-" + b)
+	}
 	st.live[node]++
 	st.activations[node]++
 	st.lastBasis[node] = b
@@ -152,11 +174,41 @@ func (st *c30State) note(node int, op, kind, result string) {
 		if result == "absent" {
 			st.basis[key] = "record-absent"
 		}
+	case "RemoveGrain":
+		if prev := strings.TrimPrefix(result, "ok:"); prev != result && prev != "-" {
+			st.mu.Lock()
+			for n, nm := range st.w.names {
+				if nm == prev && st.live[n] > 0 {
+					if n == node {
+						st.anomaly("record-removed-by-the-holder-node-while-it-holds-a-live-instance")
+					} else {
+						st.anomaly("record-removed-by-another-node-while-the-named-node-holds-a-live-instance")
+					}
+				}
+			}
+			st.mu.Unlock()
+		}
+	case "PutGrain":
+		if i := strings.Index(result, "<-"); i >= 0 && strings.HasPrefix(result, "ok:") {
+			nw, prev := result[3:i], result[i+2:]
+			if prev != "-" && prev != nw {
+				st.mu.Lock()
+				st.anomaly("put-overwrote-the-record-of-another-node")
+				st.mu.Unlock()
+			}
+		}
 	case "deliver.activate":
 		st.basis[key] = "remote-activate-request"
 	case "deliver.tell", "deliver.ask":
 		st.basis[key] = "forwarded-message"
 	}
+}
+
+func c30First(a []string) string {
+	if len(a) == 0 {
+		return "no-earlier-anomaly"
+	}
+	return a[0]
 }
 
 type c30Cfg struct {
@@ -232,7 +284,9 @@ func c30Run(t *testing.T, cfg c30Cfg, c *vsched.Chooser) (out vsched.Outcome) {
 				defer cl.done.Store(true)
 				for j, opc := range script {
 					ctx := c3xWithOp(context.Background(), fmt.Sprintf("%s%d", names[i], j))
-					w.wait(ctx, i, "start."+string(opc))
+					if j > 0 {
+						w.wait(ctx, i, "start."+string(opc))
+					}
 					var res string
 					switch opc {
 					case 'S':
@@ -290,12 +344,12 @@ func c30Run(t *testing.T, cfg c30Cfg, c *vsched.Chooser) (out vsched.Outcome) {
 			var sig, detail string
 			if len(holders) >= 2 {
 				last := st.order[len(st.order)-1]
-				sig = "two-nodes-active-last-activation-" + st.lastBasis[last]
+				sig = "two-nodes-active-after-" + c30First(st.anomalies)
 				var hs []string
 				for _, h := range holders {
 					hs = append(hs, names[h]+"("+st.lastBasis[h]+")")
 				}
-				detail = fmt.Sprintf("live instances of the grain on nodes %s at the same time; last activated on %s; ", strings.Join(hs, ","), names[last])
+				detail = fmt.Sprintf("live instances of the grain on nodes %s at the same time; last activated on %s; anomalies so far %v; ", strings.Join(hs, ","), names[last], st.anomalies)
 			}
 			st.mu.Unlock()
 			if sig != "" && !seen[sig] {
@@ -357,6 +411,8 @@ func c30Run(t *testing.T, cfg c30Cfg, c *vsched.Chooser) (out vsched.Outcome) {
 			}
 		}
 		acts := fmt.Sprint(st.activations)
+		first := c30First(st.anomalies)
+		anoms := append([]string(nil), st.anomalies...)
 		st.mu.Unlock()
 		w.mu.Lock()
 		reg := w.ownerName(w.grains[ident.String()])
@@ -367,7 +423,8 @@ func c30Run(t *testing.T, cfg c30Cfg, c *vsched.Chooser) (out vsched.Outcome) {
 			if reg != "-" {
 				sig = "registry-names-another-node-than-the-holder"
 			}
-			viol = append(viol, vsched.Fail(sig, "scripts=%v at final quiescence node %s holds the live instance but the registry names %s; events [%s]", cfg.scripts, holders[0], reg, w.traceString()))
+			sig += "-after-" + first
+			viol = append(viol, vsched.Fail(sig, "scripts=%v at final quiescence node %s holds the live instance but the registry names %s; anomalies %v; events [%s]", cfg.scripts, holders[0], reg, anoms, w.traceString()))
 		}
 		var res []string
 		for _, cl := range clients {
